@@ -775,6 +775,14 @@ func (g *Gen) solveObligation(o *Obligation, workdir string, timeoutS int, all b
 	}
 	r := Solve(script, workdir, o.Name, timeoutS, all)
 	if !o.ExpectSat && (r.Status == "unknown" || r.Status == "timeout") {
+		// attempt with strings abstracted to an uninterpreted sort (sound for discharging only)
+		ra := Solve(ScriptAbstract(asserts, defs), workdir, o.Name+"__abs", timeoutS, false)
+		if ra.Status == "unsat" {
+			ra.Solver += "(string-abstracted)"
+			r = ra
+		}
+	}
+	if !o.ExpectSat && (r.Status == "unknown" || r.Status == "timeout") {
 		// second attempt without the quantified assumptions (dropping assumptions is always sound): string goals that
 		// only need the quantifier-free facts are then within reach of the string solvers
 		var qf []*Term
